@@ -1,16 +1,19 @@
 """./check <id> [--tier quick|thorough] [--replay file] [--only substr] [--jobs n]"""
 import argparse
+import glob
 import os
 import subprocess
 import sys
 
-PACKS = {
-    "C20": "contracts.c20_numbers",
-    "C17": "contracts.c17_order",
-    "C12": "contracts.c12_atom",
-    "C13": "contracts.c13_deref",
-    "C11": "contracts.c11_bindings",
-}
+
+def packs():
+    """Property id -> pack module, discovered from contracts/cNN_*.py."""
+    here = os.path.dirname(os.path.dirname(os.path.abspath(__file__)))
+    out = {}
+    for p in sorted(glob.glob(os.path.join(here, "contracts", "c[0-9][0-9]_*.py"))):
+        name = os.path.basename(p)[:-3]
+        out["C" + name[1:3]] = "contracts." + name
+    return out
 
 
 def main():
@@ -33,6 +36,7 @@ def main():
             print(f"VIOLATION property={a.prop} replay={a.replay}")
             sys.exit(1)
         sys.exit(0)
+    PACKS = packs()
     if a.prop not in PACKS:
         print(f"unknown property {a.prop}")
         sys.exit(3)
